@@ -310,6 +310,6 @@ template <class T> static void prop_fmult(pbt::Ctx& c) {
 }
 #define RULE_FM "ceil/floor/roundMultiple(x, Multiple>0): Multiple in {1..16, 2^k, k*2^e, decimals, moderate}; x in {q*m, (q+1/2)*m, one ulp off a multiple, |x|<m, +-0, large quotients, random}; scalar, vec2, vec3; exact integer oracle, exact multiples must return x, else 8-ulp tolerance of max(|x|,m,|result|); non-trivial = x is not a multiple of m"
 static void fm_float(pbt::Ctx& c) { prop_fmult<float>(c); }
-PBT_RANDOM("multiple/float", fm_float, 1500000, 100000000, RULE_FM);
+PBT_RANDOM("multiple/float", fm_float, 1500000, 30000000, RULE_FM);
 static void fm_double(pbt::Ctx& c) { prop_fmult<double>(c); }
-PBT_RANDOM("multiple/double", fm_double, 1500000, 100000000, RULE_FM);
+PBT_RANDOM("multiple/double", fm_double, 1500000, 30000000, RULE_FM);
